@@ -172,30 +172,70 @@ def contiguity_guards(f):
     return out
 
 
+def _storage_sites(f):
+    """(block, kind, bounds) for every range-index / split / rotate applied to the backing array itself:
+    kind 'range' with bounds (lo, hi) for `items[lo..hi]`, kind 'split' with bounds (p,) for split_at(p) /
+    rotate_left(p)"""
+    out = []
+    for b, t in f.calls(False):
+        p_ = mir.callee_path(t) or ""
+        args = [f.deep_simplify(a) for a in f.call_args(b)]
+        if len(args) != 2:
+            continue
+        is_idx = "Index<I>>::index" in p_ or "IndexMut<I>>::index_mut" in p_
+        is_split = p_ in ("<[T]>::split_at", "<[T]>::split_at_mut", "<[T]>::rotate_left", "<[T]>::rotate_right")
+        if not (is_idx or is_split):
+            continue
+        base = args[0]
+        direct = any(isinstance(s, tuple) and s and s[0] in ("place", "load") and len(s) > 2 and s[2] and s[2][0] == "items" for s in mir.walk(base)) and not any(
+            isinstance(s, tuple) and s and s[0] == "call" and s[1] not in ("NonNull::as_ref", "NonNull::as_mut") for s in mir.walk(base))
+        if not direct:
+            continue
+        if is_idx:
+            a = args[1]
+            if isinstance(a, tuple) and a[0] == "agg" and str(a[1]).endswith("Range"):
+                d = dict(a[3])
+                if "start" in d and "end" in d:
+                    out.append((b, "range", (mir.strip_casts(d["start"]), mir.strip_casts(d["end"]))))
+        else:
+            out.append((b, "split", (mir.strip_casts(args[1]),)))
+    return out
+
+
 def viewcmp1(ctx, prog, cfg, rule="VIEWCMP1", groups=None):
+    """The two-slice views decide between one contiguous piece `items[lo..hi]` and a wrapped pair. With
+    lo, hi both physical positions, lo == hi means "wraps around the whole array" (the empty case is
+    handled before), so: the contiguous piece is built only where the facts entail lo < hi *strictly*,
+    and the array is split/rotated at a position only where they entail hi <= lo. Decided from the guard
+    facts at the sites, whatever the spelling or orientation of the test."""
+    from . import guards as _g
+
     for grp in (groups or VIEW_GROUPS):
-        sigs = {}
         for short in grp:
             f = prog.fn(short)
             if f is None or not f.has_mir:
                 ctx.violate(rule, short, "anchor-missing", "?", "view function not found", cfg)
                 continue
-            gs = contiguity_guards(f)
-            ok = len(gs) == 1 and gs[0][1] == "Lt" and gs[0][4]
-            ctx.check(ok, rule, short, "contiguity test is `lower < upper`", short_loc(f, gs[0][0]) if gs else f.loc,
-                      "the test that decides between one contiguous slice and a wrapped pair is %s; every sibling view uses the "
-                      "strict `lower_position < add_mod(start, upper, N)` (equality means the range wraps around the whole array)"
-                      % (["%s(%s, %s)" % (g[1], g[2], g[3]) for g in gs] or "missing"),
-                      "Lt(%s, %s)" % (gs[0][2], gs[0][3]) if gs else "", cfg)
-            if gs:
-                nm = lambda s_: re.sub(r"\bmut ", "", s_).replace("NonNull::as_mut", "NonNull::as_ref")
-                sigs[short] = (gs[0][1], nm(gs[0][2]), nm(gs[0][3]))
-        if len(set(sigs.values())) > 1:
-            ref = grp[0]
-            for short, sg in sigs.items():
-                if sg != sigs.get(ref):
-                    ctx.violate(rule, short, "contiguity test differs from sibling %s" % ref, prog.fns[short].loc,
-                                "`%s` decides contiguity with `%s(%s, %s)` while its sibling `%s` uses `%s(%s, %s)`: two views of the "
-                                "same contents disagree on where they wrap" % ((short,) + sg + (ref,) + sigs[ref]), cfg)
-        elif len(sigs) > 1:
-            ctx.ok(rule, grp[0], "siblings agree: %s" % ", ".join(grp), "identical contiguity test %s(%s, %s)" % next(iter(sigs.values())), cfg)
+            sites = _storage_sites(f)
+            rng = [(b, bd) for b, k, bd in sites if k == "range" and _is_pos(bd[0]) and _is_pos(bd[1])]
+            spl = [(b, bd) for b, k, bd in sites if k == "split" and _is_pos(bd[0])]
+            if not rng or not spl:
+                ctx.violate(rule, short, "contiguous piece and wrapped pair present", f.loc,
+                            "`%s` no longer builds one `items[lower..upper]` piece between two positions and a split/rotation of the array "
+                            "at a position (%d / %d found): the rule cannot relate the two cases and fails closed" % (short, len(rng), len(spl)), cfg)
+                continue
+            G = _g.Guards(f)
+            lo, hi = rng[0][1]
+            for b, (l, h) in rng:
+                Z = G.closure(b, extra_terms=[l, h])
+                ctx.check(Z.lt(l, h), rule, short, "contiguous piece only when lower < upper", short_loc(f, b),
+                          "`%s` builds the single contiguous piece `items[%s..%s]` where the guard facts do not entail `lower < upper` "
+                          "strictly: when both positions coincide the contents wrap around the whole array and the piece is empty "
+                          "(elements are skipped, leaked or destroyed twice)" % (short, mir.fmt(l, f), mir.fmt(h, f)),
+                          "facts entail %s < %s" % (mir.fmt(l, f)[:40], mir.fmt(h, f)[:40]), cfg)
+            for b, (p_,) in spl:
+                Z = G.closure(b, extra_terms=[lo, hi])
+                ctx.check(Z.le(hi, lo, 0), rule, short, "split/rotation only when upper <= lower", short_loc(f, b),
+                          "`%s` splits or rotates the array at `%s` where the guard facts do not entail `upper <= lower` (the wrapped case)"
+                          % (short, mir.fmt(p_, f)), "facts entail %s <= %s" % (mir.fmt(hi, f)[:40], mir.fmt(lo, f)[:40]), cfg)
+
